@@ -8,7 +8,7 @@
 (* code's order: Create = CreateNew ; AddDeposit,  TopUp = settle-if-expired *)
 (* ; deposit,  UpdateFlowRate = settle ; recompute,  Cancel = settle ;       *)
 (* refund ; delete.                                                          *)
-EXTENDS Registry
+EXTENDS Registry, StreamArith
 
 SKey(r, s) == r \o "/" \o s
 HasStream(st, r, s) == SKey(r, s) \in DOMAIN st.str.s
@@ -23,17 +23,16 @@ Bump(st, r, s, f, n) == [st EXCEPT !.aux.sh = Upd(@, SKey(r, s), [HistOf(st, r, 
 
 Epoch == -2000000000     \* "set to past" marker of a stream that has no deposit yet
 
-Duration(dep, rate) == IF rate <= 0 \/ dep <= 0 THEN 0 ELSE dep \div rate
+\* the arithmetic itself lives in StreamArith.tla (shared with the Apalache judge of the big-number recordings)
+MsPerSec == 1000
+Duration(dep, rate) == IDuration(dep, rate)
 
 (* CalculateAmountToClaim *)
 ClaimCalc(x, now) ==
-  IF now >= x.dzt THEN [claim |-> x.dep, rem |-> 0]
-  ELSE LET secs == (now - x.last) \div 1000
-           c == secs * x.rate
-       IN IF x.dep > c THEN [claim |-> c, rem |-> x.dep - c] ELSE [claim |-> x.dep, rem |-> 0]
+  LET c == IRelease(now, x.dzt, x.last, x.dep, x.rate, MsPerSec) IN [claim |-> c, rem |-> x.dep - c]
 
 (* CalculateValidatorFee: floor(claim x rate) *)
-ValFee(st, claim) == IF st.str.p.feeNum > 0 THEN (claim * st.str.p.feeNum) \div st.str.p.feeDen ELSE 0
+ValFee(st, claim) == IFee(claim, st.str.p.feeNum, st.str.p.feeDen)
 
 (* ClaimFromStream *)
 ClaimFrom(st, r, s) ==
